@@ -100,6 +100,15 @@ def _dot_cumsum(
         x, axis=axis, reverse=reverse, axis_name=sharding.spec[axis]
     )
 
+  # shard_map needs the summed axis to be divisible by the number of shards:
+  # trailing zeros change neither the forward nor the reverse cumulative sums.
+  size = x.shape[axis]
+  padding = -size % mesh.shape[spec[axis]]
+  if padding:
+    pad_width = [(0, 0)] * x.ndim
+    pad_width[axis] = (0, padding)
+    x = jnp.pad(x, pad_width)
+    return lax.slice_in_dim(dot_cumsum(x), 0, size, axis=axis)
   return dot_cumsum(x)
 
 
